@@ -394,3 +394,19 @@ package core
 //@   requires has(pool.all, hash) && pool.all[hash] != nil && txsenderok(pool.signer, pool.all[hash])
 //@   requires pool.pending[txsender(pool.signer, pool.all[hash])] != nil && pool.pending[txsender(pool.signer, pool.all[hash])] != pool.queue[txsender(pool.signer, pool.all[hash])]
 //@   ensures[C15] @rollback rm_found && rm_list == old(pool.pending[txsender(pool.signer, pool.all[hash])]) ==> mnonce[pool.pendingState][from] <= old(pool.all[hash].data.AccountNonce)
+
+// ---- receipts (C06) ----------------------------------------------------------------------------------
+// Ghost record of ApplyMessage's verdict (ghost instrumentation). A processed transaction's
+// receipt carries the running total of gas used after it, its own gas, and status 0 exactly when
+// the message failed; a consensus error yields no receipt and leaves the total untouched.
+//@ ghost am_gas (_ BitVec 64)
+//@ ghost am_failed Bool
+//@ ghost am_err Bool
+//@ func ApplyMessage
+//@   axiom am_gas == result1 && am_failed == result2 && am_err == (result3 != nil)
+//@   assigns am_gas, am_failed, am_err, inferred
+//@ func ApplyTransaction
+//@   requires config != nil && header != nil && tx != nil && usedGas != nil && statedb != nil
+//@   ensures[C06] @cumulative result2 == nil ==> !am_err && result1 == am_gas && *usedGas == old(*usedGas) + am_gas && result0 != nil && result0.CumulativeGasUsed == *usedGas && result0.GasUsed == am_gas
+//@   ensures[C06] @status result2 == nil ==> (am_failed ==> result0.Status == 0) && (!am_failed ==> result0.Status == 1)
+//@   ensures[C06] @rejected result2 != nil ==> result0 == nil && *usedGas == old(*usedGas)
